@@ -27,7 +27,7 @@ func small0() *shapes.Small { return &shapes.Small{} }
 func (s *Seq) smallSchema() sod.Schema {
 	sc := sod.Schema{Extension: ".json", Compress: s.Cfg.Compress, Cache: s.Cfg.Cache}
 	if s.Cfg.Async {
-		sc.Asynchrone(s.Cfg.Threshold, msDur(s.Cfg.TimeoutMs))
+		sc.AsyncWrites = sharedAsync(s.Cfg.Threshold, s.Cfg.TimeoutMs) // the same value as the first collection's
 	}
 	return sc
 }
